@@ -1,3 +1,52 @@
 import Holpy.Common.Sexp
-/- stub: replaced when the C18 model is built -/
-def main : IO Unit := Holpy.lineLoop (fun _ => "bad-op")
+import Holpy.C18.Model
+/-
+Line protocol of the C18 model (one s-expression in, one out):
+  (eval RULE (TERM ...) (NAT ...) ((HYPS PROP) ...))  ->  (ok (TERM ...) TERM WK) | (reject ERR) | bad-op
+  (rules)                                            ->  (NAME ...)        the rules the model knows
+TERM = (v n) | (k c) | (c TERM TERM);  HYPS = (TERM ...);  WK = T | F (`wellKinded`)
+-/
+open Holpy Holpy.C18
+
+namespace Holpy.C18.Driver
+
+partial def tmOf : Sexp → Option Tm
+  | .list [.atom "v", n] => do some (.var (← n.toNat?))
+  | .list [.atom "k", n] => do some (.const (← n.toNat?))
+  | .list [.atom "c", f, a] => do some (.comb (← tmOf f) (← tmOf a))
+  | _ => none
+
+partial def tmTo : Tm → Sexp
+  | .var n => .list [.atom "v", Sexp.ofNat n]
+  | .const n => .list [.atom "k", Sexp.ofNat n]
+  | .comb f a => .list [.atom "c", tmTo f, tmTo a]
+
+def tmsOf (s : Sexp) : Option (List Tm) := do (← s.toList?).mapM tmOf
+def natsOf (s : Sexp) : Option (List Nat) := do (← s.toList?).mapM Sexp.toNat?
+def seqOf : Sexp → Option Seq
+  | .list [h, p] => do some ⟨← tmsOf h, ← tmOf p⟩
+  | _ => none
+def seqsOf (s : Sexp) : Option (List Seq) := do (← s.toList?).mapM seqOf
+
+def errTo : Err → String
+  | .verit => "verit"
+  | .attr => "attr"
+  | .assertion => "assertion"
+  | .unpack => "unpack"
+  | .index => "index"
+
+def handle (line : String) : String :=
+  match Sexp.parse line with
+  | some (.list [.atom "eval", .atom r, cl, sizes, ps]) =>
+    match Rule.ofName r, tmsOf cl, natsOf sizes, seqsOf ps with
+    | some rule, some c, some z, some p =>
+      match evalRule rule c z p with
+      | .ok s => toString (Sexp.list [.atom "ok", .list (s.hyps.map tmTo), tmTo s.prop, Sexp.ofBool (wellKinded rule c p)])
+      | .error e => toString (Sexp.list [.atom "reject", .atom (errTo e)])
+    | _, _, _, _ => "bad-op"
+  | some (.list [.atom "rules"]) => toString (Sexp.list (Rule.all.map fun r => .atom r.name))
+  | _ => "bad-op"
+
+end Holpy.C18.Driver
+
+def main : IO Unit := Holpy.lineLoop Holpy.C18.Driver.handle
